@@ -43,40 +43,44 @@ func CheckImmutable(
 	}
 
 	for file := range filesToCheck {
-
-		// First pass: check simple assignments and inc/dec operations
-		// We skip compound assignments (+=, -=, etc.) here to avoid duplicates
-		ast.Inspect(file, func(n ast.Node) bool {
-			switch node := n.(type) {
-			case *ast.FuncDecl:
-				ctx.currentFunction = &node.Name.Name
-
+		// Walk every top-level declaration on its own so that the "current
+		// function" always is the declaration that encloses the visited node
+		// (and is empty for package-level var/const/type declarations).
+		for _, decl := range file.Decls {
+			functionName := ""
+			ctx.currentFunction = &functionName
+			ctx.currentReceiver = nil
+			if funcDecl, ok := decl.(*ast.FuncDecl); ok {
+				functionName = funcDecl.Name.Name
 				// Track receiver information for methods
-				ctx.currentReceiver = extractReceiverInfo(ctx.pass, node)
-				return true
+				ctx.currentReceiver = extractReceiverInfo(ctx.pass, funcDecl)
+			}
 
-			case *ast.AssignStmt:
-				// Only process compound assignments here
-				// Check: x.field += value, x.field *= value, etc.
-				if node.Tok != token.ASSIGN {
-					v := checkCompoundAssignment(ctx, node)
+			ast.Inspect(decl, func(n ast.Node) bool {
+				switch node := n.(type) {
+				case *ast.AssignStmt:
+					// Only process compound assignments here
+					// Check: x.field += value, x.field *= value, etc.
+					if node.Tok != token.ASSIGN {
+						v := checkCompoundAssignment(ctx, node)
+						violations = append(violations, v...)
+						return true
+					}
+
+					// Check: x.field = value, x.items[0] = value
+					v := checkAssignment(ctx, node)
+					violations = append(violations, v...)
+					return true
+
+				case *ast.IncDecStmt:
+					// Check: x.field++, x.field--
+					v := checkIncDec(ctx, node)
 					violations = append(violations, v...)
 					return true
 				}
-
-				// Check: x.field = value, x.items[0] = value
-				v := checkAssignment(ctx, node)
-				violations = append(violations, v...)
 				return true
-
-			case *ast.IncDecStmt:
-				// Check: x.field++, x.field--
-				v := checkIncDec(ctx, node)
-				violations = append(violations, v...)
-				return true
-			}
-			return true
-		})
+			})
+		}
 	}
 
 	return violations
